@@ -249,8 +249,8 @@ class RetryExecutor(CanCustomizeBind, Executor):
                 self._submit_thread.join(MAX_TIMEOUT)
             self._log.debug("Shutdown complete")
 
-    def submit(self, *args, **kwargs):  # pylint: disable=arguments-differ
-        return self.submit_retry(self._default_retry_policy, *args, **kwargs)
+    def submit(self, fn, *args, **kwargs):  # pylint: disable=arguments-differ
+        return self._submit_retry(self._default_retry_policy, fn, args, kwargs)
 
     def submit_retry(self, retry_policy, fn, *args, **kwargs):
         """Submit a callable with a specific retry policy.
@@ -258,6 +258,11 @@ class RetryExecutor(CanCustomizeBind, Executor):
         Parameters:
             retry_policy (RetryPolicy): a policy which is used for this call only
         """
+        return self._submit_retry(retry_policy, fn, args, kwargs)
+
+    def _submit_retry(self, retry_policy, fn, args, kwargs):
+        # args/kwargs are not unpacked here, so a keyword argument of fn
+        # may have the same name as one of our own parameters
         with self._shutdown.ensure_alive():
             future = RetryFuture(self)
             track_future(future, type="retry", executor=self._name)
